@@ -131,10 +131,60 @@ def _analyse(sess, module, fn, own=None):
     return analyse(sess, module, fn, contracts_for(module), own=own, requires=requires_for(module), externals=EXTERNALS, loop_invs=LOOP_INVARIANTS.get((module, fn.name), {}))
 
 
+# public entry points that take (data, **numeric options): a counter-model of a step obligation is replayed by calling the
+# real function on a mock spectrum with the model's values for its numeric parameters
+ENTRY_POINTS = {
+    ("analysis/drt/tr_nnls", "calculate_drt_tr_nnls"): "from pyimpspec.analysis.drt.tr_nnls import calculate_drt_tr_nnls as entry",
+    ("analysis/drt/tr_rbf", "calculate_drt_tr_rbf"): "from pyimpspec.analysis.drt.tr_rbf import calculate_drt_tr_rbf as entry",
+    ("analysis/drt/bht", "calculate_drt_bht"): "from pyimpspec.analysis.drt.bht import calculate_drt_bht as entry",
+    ("analysis/drt/lm", "calculate_drt_lm"): "from pyimpspec.analysis.drt.lm import calculate_drt_lm as entry",
+    ("analysis/kramers_kronig/exploratory", "evaluate_log_F_ext"): "from pyimpspec.analysis.kramers_kronig.exploratory import evaluate_log_F_ext as entry",
+}
+
+
+def _attach_replays(sess: Session, module: str, fn: ast.FunctionDef):
+    imp = ENTRY_POINTS.get((module, fn.name))
+    if imp is None:
+        return
+    a = fn.args
+    defaults = {}
+    for x, d in zip(reversed(a.posonlyargs + a.args), reversed(a.defaults)):
+        defaults[x.arg] = d
+    for ob in sess.obligations:
+        if ob.status != "refuted" or not ob.model or ob.replay:
+            continue
+        kwargs = {}
+        for name, val in ob.model.items():
+            if not name.endswith("@0"):
+                continue
+            p = name[:-2]
+            d = defaults.get(p)
+            if not (isinstance(d, ast.Constant) or (isinstance(d, ast.UnaryOp) and isinstance(d.operand, ast.Constant))):
+                continue
+            dv = ast.literal_eval(d)
+            if isinstance(dv, bool) or not isinstance(dv, (int, float)):
+                continue
+            try:
+                from fractions import Fraction
+                fv = float(Fraction(val.replace("?", "")))
+            except (ValueError, ZeroDivisionError):
+                continue
+            kwargs[p] = int(round(fv)) if isinstance(dv, int) else fv
+        if not kwargs:
+            continue
+        ob.replay = {"repro": "import warnings; warnings.filterwarnings('ignore')\nfrom pyimpspec import generate_mock_data\n" + imp + "\n"
+                              "data = generate_mock_data('CIRCUIT_1', noise=0.0)[0]\n"
+                              f"kwargs = {kwargs!r}\n"
+                              "try:\n    entry(data, **kwargs)\nexcept ZeroDivisionError:\n    raise\n"
+                              "except ValueError as ex:\n    if 'self._i' in str(ex) or '_total' in str(ex):\n        raise\n    print('refused or failed otherwise:', ex)\n"
+                              "except Exception as ex:\n    print('other outcome:', type(ex).__name__, ex)\n"}
+
+
 def target_steps(module: str, fname: str):
     def run(sess: Session):
         fn = core.find_def(module, fname)
         ex = _analyse(sess, module, fn)
+        _attach_replays(sess, module, fn)
         for note in ex.notes:
             sess.assumptions.append(f"{fname}: {note}")
         sess.check("cover", [], z3.BoolVal(ex.n_obl >= 2), fn.lineno, label=f"obligations generated for the Progress blocks of {fname}: {ex.n_obl}")
